@@ -372,6 +372,6 @@ func (c *Sender) Unbind(senderAddress, destinationAddress *model.FeatureAddressT
 func (c *Sender) getMsgCounter() *model.MsgCounterType {
 	// TODO:  persistence
 	i := model.MsgCounterType(atomic.AddUint64(&c.msgNum, 1))
-	verifPoint("Sender.counter", uint64(i))
+	verifPoint("Sender.counter", uint64(i), c)
 	return &i
 }
